@@ -382,12 +382,16 @@ func runSeq(p *core.Program, r *core.Report, queue bool) {
 				continue
 			}
 			nCmp++
-			// index is a forward induction bounded by len(items)
+			// index is a forward induction bounded by len(items): the for loop
+			// (0; i < len; i++) or the range loop
 			okScan := isForwardInduction(ia.Index)
 			// bound fact must be about the same index value
 			okBound := guardedBy(fn, bo.Block(), func(cd path.Cond, truth bool) bool {
 				return cd.Op == token.LSS && truth && cd.X == ia.Index && x.path(cd.Y) == "len("+rv+".items)"
 			})
+			if si, ok := classifyScan(x, fn, ia.Index, ia.X); ok && si.dir == +1 {
+				okScan, okBound = true, true
+			}
 			c.ob("PT5", fname, "full forward scan of items", p.InstrPos(bo), okScan && okBound, "Search must compare every held element: index from 0, step 1, while i < len(items)")
 			// true edge returns true, and false is returned only after the loop
 			var tb *ssa.BasicBlock
